@@ -122,16 +122,42 @@ def norm_prefix(p):
     return p
 
 
+def compare_call(it, call, cfg, unix, fail, tag):
+    """the environ / wsgi.input of one application call against the model of its own message"""
+    got = dict(call["environ"])
+    want = model_environ(it, cfg, unix)
+    for k in sorted(set(got) | set(want)):
+        g, w = got.get(k), want.get(k)
+        if g != w:
+            if k.startswith("HTTP_") or k in ("CONTENT_LENGTH", "CONTENT_TYPE"):
+                kind = "header-missing" if g is None else ("header-unexpected" if w is None else "header-value")
+                fail(tag + kind, "%s: environ has %r, model says %r" % (k, g, w))
+            else:
+                fail(tag + "var/" + k, "%s: environ has %r, model says %r" % (k, g, w))
+    for k, v in got.items():
+        if any(ord(ch) > 255 for ch in v):
+            fail(tag + "not-latin1", "%s=%r" % (k, v))
+    for k, tname in call["env_types"].items():
+        if k.startswith("HTTP_") and tname != "str":
+            fail(tag + "not-native-str", "%s is %s" % (k, tname))
+    if call["body"] != it.body:
+        fail(tag + "body", "wsgi.input yielded %d bytes, framed body has %d" % (len(call["body"]), len(it.body)))
+    if "CONTENT_LENGTH" in got and got["CONTENT_LENGTH"].isdigit() and int(got["CONTENT_LENGTH"]) != len(call["body"]):
+        fail(tag + "content-length-vs-body", "CONTENT_LENGTH %s but wsgi.input yielded %d bytes" % (got["CONTENT_LENGTH"], len(call["body"])))
+
+
 def run_case_full(case):
-    stream = s2b(case["stream"])
+    stream = s2b(case["stream"] + (case.get("stream2") or ""))
     cfg = dict(case.get("cfg") or {})
     unix = bool(case.get("unix"))
     items = REQ.parse_stream(stream)
-    if len(items) != 1 or items[0].verdict != REQ.VALID or items[0].end != len(stream) or items[0].has_obs_fold:
-        raise C.CaseInvalid("not a single canonical request")
+    want_n = 2 if case.get("stream2") else 1
+    if len(items) != want_n or any(i.verdict != REQ.VALID or i.has_obs_fold for i in items) or items[-1].end != len(stream):
+        raise C.CaseInvalid("not canonical request(s)")
+    for i in items:
+        if not all(0x21 <= c <= 0x7E for c in i.target) or b"[" in i.target or b"@" in i.target:
+            raise C.CaseInvalid("target outside the canonical domain")
     it = items[0]
-    if not all(0x21 <= c <= 0x7E for c in it.target) or b"[" in it.target or b"@" in it.target:
-        raise C.CaseInvalid("target outside the canonical domain")
     adj = {"clear_untrusted_proxy_headers": False}
     for k in ("url_prefix", "url_scheme", "server_name", "inbuf_overflow"):
         if k in cfg:
@@ -147,30 +173,16 @@ def run_case_full(case):
     if o.exception or o.handle_errors:
         fail("raises", "%r %r" % (o.exception, o.handle_errors))
         return fails, True, labels
-    if len(o.calls) != 1:
-        fail("not-delivered", "canonical request produced %d application calls; responses %r" % (len(o.calls), [r.status for r in o.responses]))
+    # a second request on the same connection is served unless the first one ends the connection
+    expected_calls = 1 if (len(items) == 1 or items[0].close_after) else 2
+    if len(o.calls) != expected_calls:
+        fail("not-delivered", "canonical request(s) produced %d application calls, expected %d; responses %r" % (
+            len(o.calls), expected_calls, [r.status for r in o.responses]))
         return fails, True, labels
-    call = o.calls[0]
-    got = dict(call["environ"])
-    want = model_environ(it, cfg, unix)
-    for k in sorted(set(got) | set(want)):
-        g, w = got.get(k), want.get(k)
-        if g != w:
-            if k.startswith("HTTP_") or k in ("CONTENT_LENGTH", "CONTENT_TYPE"):
-                kind = "header-missing" if g is None else ("header-unexpected" if w is None else "header-value")
-                fail(kind, "%s: environ has %r, model says %r" % (k, g, w))
-            else:
-                fail("var/" + k, "%s: environ has %r, model says %r" % (k, g, w))
-    for k, v in got.items():
-        if any(ord(ch) > 255 for ch in v):
-            fail("not-latin1", "%s=%r" % (k, v))
-    for k, tname in call["env_types"].items():
-        if k.startswith("HTTP_") and tname != "str":
-            fail("not-native-str", "%s is %s" % (k, tname))
-    if call["body"] != it.body:
-        fail("body", "wsgi.input yielded %d bytes, framed body has %d" % (len(call["body"]), len(it.body)))
-    if "CONTENT_LENGTH" in got and got["CONTENT_LENGTH"].isdigit() and int(got["CONTENT_LENGTH"]) != len(call["body"]):
-        fail("content-length-vs-body", "CONTENT_LENGTH %s but wsgi.input yielded %d bytes" % (got["CONTENT_LENGTH"], len(call["body"])))
+    if expected_calls == 2:
+        labels.add("two-requests-one-connection")
+    for idx in range(expected_calls):
+        compare_call(items[idx], o.calls[idx], cfg, unix, fail, "" if idx == 0 else "second-request/")
     # classification
     names = [b2s(n) for n, _v in it.fields]
     keys = [n.upper().replace("-", "_") for n in names]
@@ -204,10 +216,10 @@ def run_case_full(case):
 
 
 def run_case(case):
-    if not isinstance(case.get("stream"), str):
+    if not isinstance(case.get("stream"), str) or not isinstance(case.get("stream2") or "", str):
         raise C.CaseInvalid("stream")
     try:
-        s2b(case["stream"])
+        s2b(case["stream"] + (case.get("stream2") or ""))
     except UnicodeEncodeError:
         raise C.CaseInvalid("latin-1")
     return run_case_full(case)[0]
@@ -240,7 +252,7 @@ def case_strategy():
     def build(draw):
         big = st.sampled_from([8190, 8192, 8193, 9000, 70000]).map(lambda n: ("0123456789abcdef" * (n // 16 + 1))[:n])
         bodies = st.one_of(G.body_bytes(64), G.body_bytes(64), big)
-        toks = draw(G.request(targets=target_strategy(), body_strategy=bodies))
+        toks = draw(G.request(targets=target_strategy(), body_strategy=bodies, obs_fold=False))
         cfg = {}
         if draw(st.integers(0, 2)) > 0:
             cfg["url_prefix"] = draw(st.sampled_from(["/app", "/a", "app/", "/a/b", "//app//", "/%41"]))
@@ -250,7 +262,11 @@ def case_strategy():
             cfg["server_name"] = draw(st.sampled_from(["example.org", "srv"]))
         if draw(st.integers(0, 3)) == 0:
             cfg["inbuf_overflow"] = draw(st.sampled_from([1, 100, 8192, 9000]))
-        return {"stream": G.render(toks), "cfg": cfg, "unix": draw(st.integers(0, 4)) == 0}
+        case = {"stream": G.render(toks), "cfg": cfg, "unix": draw(st.integers(0, 4)) == 0}
+        if draw(st.integers(0, 2)) == 0:
+            # a second request on the same connection: its environ is the image of *its* message (nothing carried over)
+            case["stream2"] = G.render(draw(G.request(targets=target_strategy(), body_strategy=G.body_bytes(64), obs_fold=False)))
+        return case
 
     return build()
 
